@@ -13,10 +13,10 @@ pub fn encoding(data: &[u8], hint: Option<String>) -> Option<&'static Encoding> 
     Encoding::for_label(label.as_bytes())
 }
 
-pub(crate) fn decode(data: &[u8], hint: Option<String>) -> String {
-    let enc = encoding(data, hint).unwrap();
+pub(crate) fn decode(data: &[u8], hint: Option<String>) -> Option<String> {
+    let enc = encoding(data, hint)?;
     let (s, _, _) = enc.decode(data);
-    s.into_owned()
+    Some(s.into_owned())
 }
 
 #[cfg(test)]
